@@ -18,6 +18,9 @@ import (
 
 // ---------- scenario programs ----------
 
+// everything as an amount: all the payer has (amounts are clipped to the payer's balance).
+const everything = int64(1) << 40
+
 type Adv struct {
 	Version int  // index into the adversary's enabled transactions of the ledger channel (0..latest-1)
 	RootCur bool // target a sub-channel: the ledger channel's CURRENT state with outdated sub-channel states
@@ -30,7 +33,9 @@ type Step struct {
 	By     int     // acting party
 	Amt    []int64 // per asset
 	Accept bool
+	Amt2   []int64 // opensub: amounts of participant 1 (Amt: participant 0)
 	Sub    int
+	Parent int // opensub: 0 = the ledger channel, k+1 = sub-channel k (a sub-channel of a sub-channel)
 	N      int
 	Adv    *Adv // for "adv": between steps; for "pay"/"paysub": during the update
 }
@@ -45,6 +50,7 @@ type Scenario struct {
 	CD       uint64
 	PayApp   bool
 	Steps    []Step
+	Depth2   bool  // a sub-channel has a sub-channel of its own
 	Settle   []int // order in which the parties settle
 	Honest   int   // C04: the honest party; -1: both honest (C03)
 }
@@ -86,7 +92,14 @@ func GenScenario(r *rand.Rand, c04 bool) *Scenario {
 	amt := func() []int64 {
 		v := make([]int64, s.NAssets)
 		for a := range v {
-			v[a] = int64(r.Intn(12))
+			switch k := r.Intn(8); {
+			case k == 0:
+				v[a] = 0
+			case k == 1:
+				v[a] = everything // clipped to what the payer has: its balance goes to exactly 0
+			default:
+				v[a] = int64(r.Intn(12))
+			}
 		}
 		return v
 	}
@@ -97,15 +110,25 @@ func GenScenario(r *rand.Rand, c04 bool) *Scenario {
 		s.Steps = append(s.Steps, pay())
 	}
 	var open []int // sub-channels open at this point, in opening order
-	for k := 0; k < nsub; k++ {
+	parent := map[int]int{}
+	openSub := func(k, par int) {
 		// go-perun's usage: sub-channels are proposed by participant 0 of the parent ("we don't have peer index 0"
-		// otherwise); the random draw is kept so that the rest of the scenario does not depend on this
-		_ = r.Intn(2)
-		s.Steps = append(s.Steps, Step{Kind: "opensub", By: s.Proposer, Amt: amt(), Sub: k})
+		// otherwise)
+		s.Steps = append(s.Steps, Step{Kind: "opensub", By: s.Proposer, Amt: amt(), Amt2: amt(), Sub: k, Parent: par})
 		open = append(open, k)
+		parent[k] = par
+	}
+	for k := 0; k < nsub; k++ {
+		_ = r.Intn(2)
+		openSub(k, 0)
 		if r.Intn(3) == 0 {
 			s.Steps = append(s.Steps, pay())
 		}
+	}
+	// depth 2 (not with an adversary: the local watcher watches one level only)
+	if !c04 && nsub > 0 && r.Intn(4) == 0 {
+		s.Depth2 = true
+		openSub(nsub, 1+r.Intn(nsub))
 	}
 	// activity in the ledger channel and in every open sub-channel, accepted and rejected updates, ticks
 	for i := 1 + nsub + r.Intn(4); i > 0; i-- {
@@ -121,24 +144,32 @@ func GenScenario(r *rand.Rand, c04 bool) *Scenario {
 	// some sub-channels are closed cooperatively (settled into the parent), the others stay open
 	switch r.Intn(3) {
 	case 0: // all stay open: the settlement is a dispute over the whole tree
-	case 1: // close some
-		var rest []int
-		for _, k := range open {
-			if r.Intn(2) == 0 {
-				s.Steps = append(s.Steps, Step{Kind: "closesub", By: r.Intn(2), Sub: k})
-				if r.Intn(2) == 0 {
-					s.Steps = append(s.Steps, pay())
+	case 1, 2: // close some or all of them, inner channels first (a channel with an open child cannot be closed)
+		all := r.Intn(2) == 0
+		for pass := 0; pass < 2; pass++ {
+			cur := append([]int(nil), open...)
+			closed := map[int]bool{}
+			for i := len(cur) - 1; i >= 0; i-- {
+				k := cur[i]
+				childOpen := false
+				for _, j := range cur {
+					childOpen = childOpen || (parent[j] == k+1 && !closed[j])
 				}
-			} else {
-				rest = append(rest, k)
+				if (all || r.Intn(2) == 0) && !childOpen {
+					s.Steps = append(s.Steps, Step{Kind: "closesub", By: r.Intn(2), Sub: k})
+					closed[k] = true
+					if r.Intn(3) == 0 {
+						s.Steps = append(s.Steps, pay())
+					}
+				}
+			}
+			open = nil
+			for _, k := range cur {
+				if !closed[k] {
+					open = append(open, k)
+				}
 			}
 		}
-		open = rest
-	default: // close all
-		for _, k := range open {
-			s.Steps = append(s.Steps, Step{Kind: "closesub", By: r.Intn(2), Sub: k})
-		}
-		open = nil
 	}
 	if len(open) == 0 && r.Intn(3) == 0 {
 		s.Steps = append(s.Steps, Step{Kind: "final", By: r.Intn(2)})
@@ -389,26 +420,30 @@ func Execute(sc *Scenario) *Run {
 			r.adversary(st.Adv)
 		case "opensub":
 			by, other := e.P[st.By], e.P[1-st.By]
-			cur := root[by.I].State()
-			if len(cur.Locked) > 0 && false {
-				continue
+			par := root
+			if st.Parent > 0 {
+				var ok bool
+				if par, ok = subs[st.Parent-1]; !ok {
+					continue
+				}
 			}
+			cur := par[by.I].State()
 			rows := make([][]int64, sc.NAssets)
-			ok := true
 			for a := range rows {
 				rows[a] = make([]int64, 2)
 				for j := 0; j < 2; j++ {
-					x := st.Amt[a%len(st.Amt)] + int64(j)
+					want := st.Amt
+					if j == 1 && st.Amt2 != nil {
+						want = st.Amt2
+					}
+					x := want[a%len(want)]
 					if cur.Balances[a][j].Cmp(big.NewInt(x)) < 0 {
 						x = cur.Balances[a][j].Int64()
 					}
 					rows[a][j] = x
 				}
 			}
-			if !ok {
-				continue
-			}
-			sp, err := client.NewSubChannelProposal(root[by.I].ID(), sc.CD, e.alloc(rows),
+			sp, err := client.NewSubChannelProposal(par[by.I].ID(), sc.CD, e.alloc(rows),
 				client.WithNonceFrom(rand.New(rand.NewSource(rng.Int63()))), client.WithoutApp())
 			if err != nil {
 				r.note("opensub proposal: %v", err)
@@ -433,8 +468,9 @@ func Execute(sc *Scenario) *Run {
 			}
 			subs[st.Sub] = map[int]*client.Channel{by.I: sc1, other.I: sc2}
 			r.Subs = append(r.Subs, sc1.ID())
+			// the local watcher watches one level of sub-channels: deeper channels are not watched
 			for _, p := range e.P {
-				if p.Honest {
+				if p.Honest && st.Parent == 0 {
 					e.StartWatch(p, subs[st.Sub][p.I])
 				}
 			}
